@@ -321,6 +321,21 @@ def b_rebin(ctx):
                 continue
             c = counts[:len(sb) - 1]
             h = pd.Series([float(x) for x in c], index=pd.IntervalIndex.from_breaks([float(x) for x in sb], name='range'), name='cycles')
+            # integer cycle counts (what range_histogram / np.histogram return): re-binning spreads them in fractions, the total is still conserved
+            # (added after seed C14-e cast the result back to the dtype of the source histogram)
+            if unit == 1.0 and all(float(x) == int(x) for x in c):
+                hi = h.astype('int64')
+                for tb in pool:
+                    if tb[0] > sb[0] or tb[-1] < sb[-1]:
+                        continue
+                    ri = rebin_histogram(hi, pd.IntervalIndex.from_breaks([float(x) for x in tb]))
+                    ctx.case(True, key=(tuple(sb), tuple(c), tuple(tb), 'int64'))
+                    if abs(float(ri.sum()) - float(h.sum())) > 1e-9 * max(1, h.sum()):
+                        ctx.fail('C14:rebin-total:integer-counts', f'rebinning {sb} with integer counts {c} to {tb}: total {h.sum()} -> {ri.sum()}', {'source': sb, 'counts': c, 'target': tb})
+                for nb in (2, 3):
+                    ri = rebin_histogram(hi, nb)
+                    if abs(float(ri.sum()) - float(h.sum())) > 1e-9 * max(1, h.sum()):
+                        ctx.fail('C14:rebin-total:integer-counts', f'rebinning {sb} with integer counts {c} to {nb} bins: total {h.sum()} -> {ri.sum()}', {'source': sb, 'counts': c, 'bins': nb})
             for tb in pool:
                 if not ctx.mine():
                     continue
